@@ -20,7 +20,7 @@ import time
 from typing import Any
 from urllib.parse import quote, urlsplit, parse_qs
 
-from harness.core import MachineryFailure, Outcome, Violation, run_tlc, scratch, seed, tlc_must_pass, validate_trace
+from harness.core import REPO, MachineryFailure, Outcome, Violation, run_tlc, scratch, seed, tlc_must_pass, validate_trace
 
 CAP_MS = 3000
 NOW = datetime.datetime(2024, 3, 5, 12, 0, 0, tzinfo=datetime.timezone.utc)
@@ -299,6 +299,7 @@ def mp4_mutations(da, rng: random.Random, tier_: str) -> list[dict[str, Any]]:
     from harness.walker import top_level_layout
     lines: list[dict[str, Any]] = []
     tid = 2 * 10**6
+    from harness.walker import Parsed
     src = (da.blob_folder / 'bbb' / 'bbb_t1.mp4').read_bytes()
     lay = top_level_layout(src)
     muts: list[tuple[str, bytes]] = [('intact', src)]
@@ -319,8 +320,70 @@ def mp4_mutations(da, rng: random.Random, tier_: str) -> list[dict[str, Any]]:
     muts.append(('empty', b''))
     muts.append(('garbage', bytes(rng.randrange(256) for _ in range(300))))
     muts.append(('text', b'this is not an mp4 file' * 10))
+    # a box of size 0 "extends to the end of the file" (ISO/IEC 14496-12 4.2): legal as the last box, also when nothing follows its header
+    muts.append(('append:free(size=0)', src + struct.pack('>I4s', 0, b'free')))
+    muts.append(('append:free(size=0)+payload', src + struct.pack('>I4s', 0, b'free') + b'\0' * 5))
+    # ---- nested boxes: size-field edits of every box of the head of several files, truncation at every offset of the boxes that
+    # carry NUL-terminated strings.  These run through the parser directly (cheap); a sample also goes through the service.
+    deep: list[tuple[str, bytes]] = []
+    fx = REPO / 'tests' / 'fixtures'
+    for rel in ('bbb/bbb_t1.mp4', 'emsg.mp4', 'webvtt.mp4', 'bbb/bbb_a1_enc.mp4'):
+        whole = (fx / rel).read_bytes()
+        p = Parsed(whole)
+        mf = next((b for b in p.top if b.name == 'moof'), None)
+        lim = min(len(whole), (mf.end if mf else len(whole)) + 200)
+        base = whole[:lim]
+        for b in p.boxes():
+            if b.pos >= lim:
+                continue
+            for ns in (0, 8, 9, 12, 26, b.size // 2, b.size - 1, b.size + 1):
+                if ns < 0 or ns == b.size:
+                    continue
+                m = bytearray(base)
+                struct.pack_into('>I', m, b.pos, ns)
+                deep.append((f'{rel}:size@{b.name}@{b.pos}={ns}', bytes(m)))
+            if b.name in ('emsg', 'stpp', 'hdlr', 'schm', 'wvtt', 'stsd', 'urn ', 'url '):
+                for cut in range(b.pos + 1, min(b.end + 2, lim)):
+                    deep.append((f'{rel}:truncate@{b.name}@{cut}', base[:cut]))
+        for cut in range(1, lim, 13 if tier_ == 'quick' else 3):
+            deep.append((f'{rel}:truncate@{cut}', base[:cut]))
+    from dashlive.mpeg import mp4 as _mp4
+
+    def touch(a) -> None:
+        for ch in (a.children or []):
+            touch(ch)
+        try:
+            a.toJSON()
+        except (TimeoutError, RecursionError):
+            raise
+        except Exception:      # noqa: BLE001   a reported parse error of a lazily loaded box
+            pass
+    runaway = 0
+    for name, data in deep:
+        for lazy in (True, False):
+            if runaway >= 12:
+                break
+            tid += 1
+            t0 = time.perf_counter()
+            status, exc = 200, {}
+            try:
+                with Deadline():
+                    for a in _mp4.Mp4Atom.load(io.BytesIO(data), options=_mp4.Options(lazy_load=lazy)):
+                        touch(a)
+            except TimeoutError:
+                status, exc = 500, {'type': 'TimeoutError', 'msg': '', 'where': 'Mp4Atom.load'}
+                runaway += 1
+            except RecursionError:
+                status, exc = 500, {'type': 'RecursionError', 'msg': '', 'where': 'Mp4Atom.load'}
+            except Exception as err:      # noqa: BLE001  reported parse error
+                status, exc = 422, {'type': type(err).__name__, 'msg': str(err)[:100], 'where': 'Mp4Atom.load'}
+            lines.append({'tid': tid, 'ev': 'probe', 'cls': 'parser', 'opt': 'lazy' if lazy else 'eager', 'vclass': name, 'url': 'Mp4Atom.load',
+                          'status': status, 'requested': 0, 'elapsed_ms': int((time.perf_counter() - t0) * 1000), 'cap_ms': CAP_MS, 'exc': exc})
+    essential = [m for m in muts if m[0].startswith('append:')]
     if tier_ == 'quick':
-        muts = muts[:1] + rng.sample(muts[1:], 45)
+        muts = muts[:1] + essential + rng.sample([m for m in muts[1:] if m not in essential], 40) + rng.sample(deep, 12)
+    else:
+        muts = muts + rng.sample(deep, 150)
     s = Session(da, 'media')
     ident = ids(da)
     spk = ident['streams']['bbb']
@@ -460,6 +523,6 @@ def main(tier_: str) -> int:
             'samples': [lines[1], probes[len(probes) // 2], probes[-1]],
             'bounds': f'tier {tier_}; injection: 4 usages x 8 specifications x failure count absent/1/2, two clients; grid: 23 route/stream '
                       f'classes x {out.coverage.get("registered_options")} option names x {len(VALUE_CLASSES)} value classes (pairwise-reduced in quick); '
-                      'MP4: truncations at box boundaries +-1, size field edits, bit flips',
+                      'MP4: truncations at box boundaries +-1, size field edits, bit flips, size-0 last box; size edits of every nested box and dense truncations of 4 files through the parser (lazy + eager, every box touched)',
         })
     return out.finish('model_checking')
